@@ -32,6 +32,12 @@ class Scheduler:
         self.dead_announced = False
         self.break_stderr = False
         self.delivered = []
+        self.died = []              # (step, event, stderr tail, status item): the thread was gone after a request that must leave it listening
+        self.reports = []           # (step, event, characters the thread wrote to stderr while handling it)
+        self.err = None             # the buffer stderr is redirected to during the run
+        self.flag = None            # reads pcfg.should_exit
+        self.lost_quits = []        # (step, 'q', ...): 'q' was typed to a listening thread and the quit flag was not set
+        self.current = None         # reads the status item (report.pt_item) the thread reports on
 
     # ---- stand-ins seen by lib_guesser.cracking_session
     def fake_input(self, *a):
@@ -82,6 +88,19 @@ class Scheduler:
         self.lines.put(item)
         self.quiesce()
 
+    def request(self, evname, item):
+        """a status / help / quit line typed to a listening thread: the main loop stands still while it is handled, so what
+        stderr gains is the thread's answer; after status / help the thread must be listening again"""
+        before = self.err.tell() if self.err is not None else 0
+        self.send(item)
+        after = self.err.tell() if self.err is not None else 0
+        self.reports.append((self.step, evname, after - before))
+        if (evname != "q" and not self.real.is_alive()) or (evname == "q" and self.flag is not None and not self.flag()):
+            # what the thread had written when it gave up, and the status item it was reporting on
+            text = self.err.getvalue()[before:after] if self.err is not None else ""
+            item = self.current() if self.current is not None else None
+            (self.lost_quits if evname == "q" else self.died).append((self.step, evname, text[-200:], repr(item)[:200]))
+
     def deliver(self, evname):
         self.delivered.append((self.step, evname))
         if self.real is None:
@@ -94,11 +113,11 @@ class Scheduler:
         if not self.real.is_alive():
             return
         if evname == "status":
-            self.send("")
+            self.request(evname, "")
         elif evname == "help":
-            self.send("h")
+            self.request(evname, "h")
         elif evname == "q":
-            self.send("q")
+            self.request(evname, "q")
         elif evname == "eof":
             self.send("\x00EOF")
             if not self.real.is_alive():
@@ -127,16 +146,22 @@ class Scheduler:
 
 def run_session(pcfg, plan, save_dir, load_config=None, limit=None, storm=False, early=False, past_time=None):
     """One run of the real CrackingSession under schedule [plan].
-    Returns dict(out=[guesses], pops=[pt_items], saves=n, save_config, omen_exit, omen_guess_num, steps)."""
+    Returns dict(out=[guesses], pops=[pt_items], saves=n, save_config, omen_exit, omen_guess_num, steps,
+    pop_out = guesses written before each pop, head = guesses written before the first pop (a resumed session: the
+    remainder of the restored Markov level), thread_died / reports / lost_quits: see Scheduler).
+    load_config: a ConfigParser read from the save file of an earlier run in the same save_dir (sess.sav, sess.omn
+    beside it): the session is resumed (run(load_session=True))."""
     import lib_guesser.cracking_session as cs
     from lib_guesser.priority_queue import PcfgQueue
     sch = Scheduler(plan, early)
-    out, pops = [], []
+    out, pops, pop_out = [], [], []
+    sch.flag = lambda: bool(pcfg.should_exit)
 
     class SchedQueue(PcfgQueue):
         def next(self):
             it = PcfgQueue.next(self)
             if it is not None:
+                pop_out.append(len(out))
                 sch.at_step()       # the step "pop + quit check" of the model
                 pops.append(it)
             return it
@@ -194,6 +219,7 @@ def run_session(pcfg, plan, save_dir, load_config=None, limit=None, storm=False,
                 raise OSError("stderr closed")
             return self._rep.print_status(p)
     session.report = BrokenReport(session.report)
+    sch.current = lambda: getattr(session.report, "pt_item", None)
 
     import lib_guesser.omen.markov_cracker as mcmod
     omen_saves = []
@@ -214,6 +240,7 @@ def run_session(pcfg, plan, save_dir, load_config=None, limit=None, storm=False,
         if not storm:
             pcfg.print_guess = collect
         err = io.StringIO()
+        sch.err = err
         with contextlib.redirect_stderr(err), contextlib.redirect_stdout(storm_buf if storm else io.StringIO()) as so:
             old_hook = _threading.excepthook
             _threading.excepthook = lambda a: None
@@ -252,4 +279,5 @@ def run_session(pcfg, plan, save_dir, load_config=None, limit=None, storm=False,
         mcmod.MarkovCracker.save_session = orig_omen_save
     return {"omen_saves": omen_saves, "foreign": foreign, "out": out, "pops": pops, "saves": saves, "save_config": cfg, "omen_exit": pcfg.omen_exit,
             "omen_guess_num": pcfg.omen_guess_num, "steps": sch.step, "stray_stdout": stray_stdout,
-            "save_filename": save_filename}
+            "save_filename": save_filename, "thread_died": sch.died, "reports": sch.reports, "lost_quits": sch.lost_quits,
+            "pop_out": pop_out, "head": pop_out[0] if pop_out else len(out), "stderr": err.getvalue()}
